@@ -87,6 +87,7 @@ myth_tls_tree_node_alloc_leaf(myth_tls_tree_t * t) {
 #endif
   for (i = 0; i < myth_tls_tree_node_n_entries_in_leaf; i++) {
     n->entries[i].value = 0;
+    n->entries[i].gen = 0;
   }
   return n;
 }
@@ -118,6 +119,8 @@ myth_tls_call_destructors_rec(myth_tls_tree_node_t * n,
     for (i = 0; i < myth_tls_tree_node_n_entries_in_leaf; i++, k++) {
       void * val = n->entries[i].value;
       void (*destructor)(void *) = ka->keys[k].destructor;
+      /* a value left under an earlier incarnation of the index is not this key's */
+      if (n->entries[i].gen != ka->keys[k].gen) val = 0;
       if (destructor) {
 	n->entries[i].value = 0;
 	destructor(val);
@@ -186,7 +189,8 @@ myth_tls_tree_fini(myth_tls_tree_t * t, myth_tls_key_allocator_t * ka) {
   }
 }
 
-static inline void * myth_tls_tree_get(myth_tls_tree_t * t, int idx) {
+static inline void * myth_tls_tree_get(myth_tls_tree_t * t,
+				       myth_tls_key_allocator_t * ka, int idx) {
   if (idx < 0 || idx >= myth_tls_n_keys) {
     return 0;
   }
@@ -203,10 +207,13 @@ static inline void * myth_tls_tree_get(myth_tls_tree_t * t, int idx) {
     if (!n) return 0;
   }
   assert(n->type == myth_tls_tree_node_type_leaf);
-  return n->entries[idx & (myth_tls_tree_node_n_entries_in_leaf - 1)].value;
+  myth_tls_entry_t * e = &n->entries[idx & (myth_tls_tree_node_n_entries_in_leaf - 1)];
+  /* the slot may still hold what was stored under a deleted key of the same index */
+  return e->gen == ka->keys[idx].gen ? e->value : 0;
 }
 
-static inline int myth_tls_tree_set(myth_tls_tree_t * t, int idx,
+static inline int myth_tls_tree_set(myth_tls_tree_t * t,
+				    myth_tls_key_allocator_t * ka, int idx,
 				    const void * v) {
   if (idx < 0 || idx >= myth_tls_n_keys) {
     return EINVAL;
@@ -238,8 +245,10 @@ static inline int myth_tls_tree_set(myth_tls_tree_t * t, int idx,
     n = c;
   }
   assert(n->type == myth_tls_tree_node_type_leaf);
+  myth_tls_entry_t * e = &n->entries[idx & (myth_tls_tree_node_n_entries_in_leaf - 1)];
   /* a cast to discard const qualifier  */
-  n->entries[idx & (myth_tls_tree_node_n_entries_in_leaf - 1)].value = (void *)v;
+  e->value = (void *)v;
+  e->gen = ka->keys[idx].gen;
   return 0;
 }
 
@@ -287,6 +296,7 @@ myth_tls_key_allocator_alloc(myth_tls_key_allocator_t * s,
     /* mark the key as used */
     ke->next = (myth_tls_key_entry_t *)-1;
     ke->destructor = destructor;
+    ke->gen++;			/* a new incarnation of this index */
   }
   myth_spin_unlock_body(&s->lock);
   return ke ? (int)(ke - s->keys) : -1;
@@ -355,12 +365,12 @@ static inline int myth_equal_body(myth_thread_t t1, myth_thread_t t2) {
 
 static inline int myth_setspecific_body(myth_key_t key, const void * val) {
   myth_thread_t th = myth_self_body();
-  return myth_tls_tree_set(th->tls, key, val);
+  return myth_tls_tree_set(th->tls, g_myth_tls_key_allocator, key, val);
 }
 
 static inline void * myth_getspecific_body(myth_key_t key) {
   myth_thread_t th = myth_self_body();
-  return myth_tls_tree_get(th->tls, key);
+  return myth_tls_tree_get(th->tls, g_myth_tls_key_allocator, key);
 }
 
 #endif /* MYTH_TLS_FUNC_H_ */
